@@ -308,6 +308,54 @@ def dispatch_rule(chk, prog):
         chk.ob("DISPATCH", "%s::%s[unknown]" % (ref, route), "an unknown method name raises ValueError", rej, module=f.module.rel, function=f.qname, construct="unknown method rejected via %s" % route)
 
 
+def rowwise_rule(chk, prog):
+    """ROWWISE: in every batch routine a per-sample call `self.estimate(...)` made inside a loop or comprehension over t takes row t of each data array
+    (the loop variable itself as the index, no offset, no constant) and, in the loop form, stores the result in row t of the output"""
+    n = 0
+    for rel, m in prog.modules.items():
+        if not rel.startswith("ahrs/filters/"):
+            continue
+        for c in m.classes.values():
+            f = c.methods.get("_compute_all")
+            if f is None:
+                continue
+            scopes = []
+            for node in ast.walk(f.node):
+                if isinstance(node, ast.For) and isinstance(node.target, ast.Name):
+                    scopes.append((node.target.id, node.body, node))
+                elif isinstance(node, (ast.ListComp, ast.GeneratorExp)) and len(node.generators) == 1 and isinstance(node.generators[0].target, ast.Name):
+                    scopes.append((node.generators[0].target.id, [node.elt], node))
+            for var, body, scope in scopes:
+                for b in body:
+                    for call in ast.walk(b):
+                        if not (isinstance(call, ast.Call) and isinstance(call.func, ast.Attribute) and call.func.attr == "estimate"
+                                and isinstance(call.func.value, ast.Name) and call.func.value.id == "self"):
+                            continue
+                        n += 1
+                        chk.touch(f)
+                        problems = []
+                        rows = [a for a in list(call.args) + [k.value for k in call.keywords] if isinstance(a, ast.Subscript)]
+                        if not rows:
+                            problems.append("no argument of the per-sample call is a row of a data array")
+                        for a in rows:
+                            idx = a.slice.elts[0] if isinstance(a.slice, ast.Tuple) else a.slice
+                            if not (isinstance(idx, ast.Name) and idx.id == var):
+                                problems.append("argument `%s` is not row `%s` of its array" % (ast.unparse(a), var))
+                        if isinstance(scope, ast.For) and isinstance(b, ast.Assign):
+                            tg = b.targets[0]
+                            tidx = (tg.slice.elts[0] if isinstance(tg.slice, ast.Tuple) else tg.slice) if isinstance(tg, ast.Subscript) else None
+                            if not (isinstance(tidx, ast.Name) and tidx.id == var):
+                                problems.append("result stored in `%s`, not in row `%s` of the output" % (ast.unparse(tg), var))
+                        site = "%s::%s" % (f.ref, ast.unparse(call)[:70])
+                        if problems:
+                            chk.record("ROWWISE", site, "per-sample call takes and fills row t", verdict="VIOLATION", detail="; ".join(problems))
+                            chk.finding("ROWWISE", rel, f.qname, "per-sample call %s" % ast.unparse(call)[:70], "; ".join(problems), line=call.lineno)
+                        else:
+                            chk.record("ROWWISE", site, "the call takes row %s of every data array%s" % (var, " and fills row %s" % var if isinstance(scope, ast.For) else ""))
+    if n < 6:
+        chk.error("ROWWISE: only %d per-sample estimate calls indexed by a loop variable found in batch routines (10 confirmed by hand)" % n)
+
+
 def canaries(chk, prog):
     from sa.report import Check
 
@@ -365,6 +413,7 @@ def run(chk, prog, tier):
     estimator_twins(chk, prog)
     from props.c18 import metric_twins
     metric_twins(chk, prog)
+    rowwise_rule(chk, prog)
     from props.c18 import chordal_twin
     chordal_twin(chk, prog, rule="TWIN.metric")
     flow_rule(chk, prog)
